@@ -229,15 +229,16 @@ def sequential_job(job):
                 for m in tr.subscribe(op[1]):
                     got.append(m.data)
         keys = [tuple(p) for p in got]
-        if len(set(keys)) != len(keys):
-            bad.append(("C14:duplicate-delivery", "%s: a message was delivered twice: %s" % (name, got)))
-        lost = [p for p in pubs if tuple(p) not in set(keys)]
+        keyset = set(keys)
+        if len(keyset) != len(keys):
+            bad.append(("C14:duplicate-delivery", "%s: a message was delivered twice: %s" % (name, got[:20])))
+        lost = [p for p in pubs if tuple(p) not in keyset]
         if lost:
-            bad.append(("C14:lost-message:sequential", "%s: published %s never delivered" % (name, lost[:3])))
+            bad.append(("C14:lost-message:sequential", "%s: %d of %d published messages never delivered, first %s" % (name, len(lost), len(pubs), lost[:3])))
         last = {}
         for p in got:
             if p[2] in last and last[p[2]] >= p[1]:
-                bad.append(("C14:order-violated", "%s: channel %s: #%d received after #%d (sequence %s)" % (name, p[2], p[1], last[p[2]], [x[1] for x in got])))
+                bad.append(("C14:order-violated", "%s: channel %s: #%d received after #%d (sequence %s)" % (name, p[2], p[1], last[p[2]], [x[1] for x in got][:40])))
                 break
             last[p[2]] = p[1]
 
@@ -252,6 +253,9 @@ def sequential_job(job):
         [("pub", "a.x", 2), ("pub", "a.y", 2), ("open", "a.*", 1), ("pub", "a.x", 1), ("pub", "a.y", 1), ("close",), ("drain", "*")])
     run("open, take two, publish, close, publish, drain",
         [("pub", "c", 4), ("open", "c", 2), ("pub", "c", 1), ("close",), ("pub", "c", 1), ("drain", "c")])
+    # a backlog: many undelivered messages on one channel (a late consumer), two channels, a wildcard drain
+    run("backlog of 70000 messages on one channel, late consumer", [("pub", "bulk", 70000), ("drain", "bulk")])
+    run("backlog on two channels, wildcard drain", [("pub", "b.x", 9000), ("pub", "b.y", 9000), ("pub", "b.x", 10), ("drain", "b.*")])
     return {"oracle": bad, "file": mod.__file__}
 
 
